@@ -31,8 +31,9 @@ VARIABLES l,        \* next trace line
           ledK,     \* ledger version -> number of commits on disk when it was first seen
           k0, len0, subs0, dec0,   \* what the run started with (level 2: the recovered state)
           kcur,     \* commits so far
+          memo,     \* <<whole records surviving, torn?>> -> oracle evaluation for that prefix (pure cache)
           bad       \* number of rejected probe/fault events
-tvars == <<l, ackLen, pubLen, fps, ledK, k0, len0, subs0, dec0, kcur, bad>>
+tvars == <<l, ackLen, pubLen, fps, ledK, k0, len0, subs0, dec0, kcur, memo, bad>>
 allvars == <<vars, tvars>>
 
 SeqSet(s) == {s[i] : i \in 1..Len(s)}
@@ -46,7 +47,7 @@ WalUnchanged == UNCHANGED <<synced, ledger, mem, snap, pc, cur, wr, ep, rwq, ack
 TInit ==
   /\ Init
   /\ l = 1 /\ ackLen = Empty /\ pubLen = Empty /\ fps = Empty /\ ledK = Empty
-  /\ k0 = 0 /\ len0 = 0 /\ subs0 = {} /\ dec0 = {} /\ kcur = 0 /\ bad = 0
+  /\ k0 = 0 /\ len0 = 0 /\ subs0 = {} /\ dec0 = {} /\ kcur = 0 /\ bad = 0 /\ memo = Empty
 
 \* ---- a run starts -----------------------------------------------------------
 TReset ==
@@ -57,7 +58,7 @@ TReset ==
   /\ ackLen' = [s \in SeqSet(Rec[l].subs0) |-> 0]
   /\ pubLen' = [s \in SeqSet(Rec[l].dec0) |-> 0]
   /\ fps' = (Rec[l].k0 :> Rec[l].fp0)
-  /\ ledK' = Empty
+  /\ ledK' = Empty /\ memo' = Empty
   /\ UNCHANGED bad /\ WalUnchanged
 
 \* ---- one disk record (AppendFrame / AppendCommitAndSync of Wal.tla) ------------------
@@ -78,14 +79,14 @@ TRec ==
         /\ IF RecOk(r) /\ e.tx <= Len(txs) + 1 THEN UNCHANGED bad
            ELSE PrintT(<<"BAD", l, {"writer_discipline"}>>) /\ bad' = bad + 1
         /\ kcur' = IF e.kind = "commit" /\ Bytes(seg') > len0 THEN kcur + 1 ELSE kcur
-  /\ UNCHANGED <<ackLen, pubLen, fps, ledK, k0, len0, subs0, dec0>> /\ WalUnchanged
+  /\ UNCHANGED <<ackLen, pubLen, fps, ledK, k0, len0, subs0, dec0, memo>> /\ WalUnchanged
 
-TOpened == IsEvent("opened") /\ UNCHANGED <<seg, txs, ackLen, pubLen, fps, ledK, k0, len0, subs0, dec0, kcur, bad>> /\ WalUnchanged
+TOpened == IsEvent("opened") /\ UNCHANGED <<seg, txs, ackLen, pubLen, fps, ledK, k0, len0, subs0, dec0, kcur, memo, bad>> /\ WalUnchanged
 
 TLedger ==
   /\ IsEvent("ledger")
   /\ ledK' = Upd(ledK, Rec[l].ver, Rec[l].k)
-  /\ UNCHANGED <<seg, txs, ackLen, pubLen, fps, k0, len0, subs0, dec0, kcur, bad>> /\ WalUnchanged
+  /\ UNCHANGED <<seg, txs, ackLen, pubLen, fps, k0, len0, subs0, dec0, kcur, memo, bad>> /\ WalUnchanged
 
 \* ---- a host call returned ----------------------------------------------------------
 LastCommitTx == LET cm == SelectSeq(seg, LAMBDA r : r.kind = "commit") IN cm[Len(cm)].tx
@@ -111,7 +112,7 @@ TCall ==
         /\ txs' = IF newTx /\ Len(seg) > 0 /\ e.fp # ""
                   THEN [txs EXCEPT ![LastCommitTx] = [kind |-> IF e.res = "acked" THEN "sub" ELSE "tick", subs |-> newSubs, nf |-> 0]]
                   ELSE txs
-  /\ UNCHANGED <<seg, ledK, k0, len0, subs0, dec0, kcur>> /\ WalUnchanged
+  /\ UNCHANGED <<seg, ledK, k0, len0, subs0, dec0, kcur, memo>> /\ WalUnchanged
 
 \* ---- one crash state --------------------------------------------------------------
 RECURSIVE CommitEnd(_, _, _, _)
@@ -131,25 +132,38 @@ Coexists(ver, b) ==
           IN /\ (kv <= k0 \/ CommitEnd(seg, kv, 1, 0) <= b)
              /\ b <= CommitEnd(seg, kv + 1, 1, 0)
 
+\* The oracle for one surviving prefix depends only on how many whole records survive and on
+\* whether a torn record follows; it is evaluated once per such prefix and cached.
+RECURSIVE WholeWithin(_, _, _, _)
+WholeWithin(s, b, i, off) ==
+  IF i > Len(s) \/ off + s[i].ext > b THEN <<i - 1, (i <= Len(s) /\ off < b)>>
+  ELSE WholeWithin(s, b, i + 1, off + s[i].ext)
+Evaluate(b) ==
+  LET pfx == PrefixBytes(seg, b)
+      h == Durable(pfx)                      \* declarative oracle: committed prefix of surviving bytes
+      sc == Scan(pfx, "fs")                  \* transcribed recovery on the same bytes
+      scb == Scan(pfx, "bytes")
+      want == Rebuild(h)
+  IN [n |-> Len(h), subs |-> want.subs, dec |-> want.dec,
+      scanOk |-> (sc.ok /\ sc.h = h /\ scb.ok /\ scb.h = h)]
+
 TProbe ==
   /\ IsEvent("probe")
   /\ LET e == Rec[l]
-         pfx == PrefixBytes(seg, e.b)
-         h == Durable(pfx)                      \* declarative oracle: committed prefix of surviving bytes
-         sc == Scan(pfx, "fs")                  \* transcribed recovery on the same bytes
-         scb == Scan(pfx, "bytes")
-         want == Rebuild(h)
-         wantSubs == subs0 \cup want.subs
-         wantDec == dec0 \cup want.dec
+         key == WholeWithin(seg, e.b, 1, 0)
+         ev == IF key \in DOMAIN memo THEN memo[key] ELSE Evaluate(e.b)
+         hn == ev.n
+         wantSubs == subs0 \cup ev.subs
+         wantDec == dec0 \cup ev.dec
          obsSubs == SeqSet(e.subs)
          obsDec == SeqSet(e.dec)
          reasons ==
               (IF e.b >= len0 /\ e.b <= Bytes(seg) /\ Coexists(e.lv, e.b) THEN {} ELSE {"harness_impossible_crash_state"})
-         \cup (IF sc.ok /\ sc.h = h /\ scb.ok /\ scb.h = h THEN {} ELSE {"model_scan_differs_from_oracle"})
+         \cup (IF ev.scanOk THEN {} ELSE {"model_scan_differs_from_oracle"})
          \cup (IF e.opened THEN {} ELSE {"reopen_failed"})
-         \cup (IF ~e.opened \/ (e.k = Len(h) /\ e.ro_k = Len(h)) THEN {} ELSE {"recovered_not_longest_committed_prefix"})
+         \cup (IF ~e.opened \/ (e.k = hn /\ e.ro_k = hn) THEN {} ELSE {"recovered_not_longest_committed_prefix"})
          \cup (IF ~e.opened \/ (obsSubs = wantSubs /\ obsDec = wantDec) THEN {} ELSE {"recovered_content_differs"})
-         \cup (IF ~e.opened \/ (Len(h) \in DOMAIN fps /\ e.fp = fps[Len(h)]) THEN {} ELSE {"recovered_view_differs_from_original_at_that_commit"})
+         \cup (IF ~e.opened \/ (hn \in DOMAIN fps /\ e.fp = fps[hn]) THEN {} ELSE {"recovered_view_differs_from_original_at_that_commit"})
          \cup (IF ~e.opened \/ \A s \in DOMAIN ackLen : ackLen[s] <= e.b => s \in obsSubs THEN {} ELSE {"acked_lost"})
          \cup (IF ~e.opened \/ \A s \in DOMAIN pubLen : pubLen[s] <= e.b => s \in obsDec THEN {} ELSE {"published_lost"})
          \cup (IF ~e.opened \/ obsSubs \subseteq wantSubs THEN {} ELSE {"uncommitted_visible"})
@@ -159,8 +173,9 @@ TProbe ==
          \cup (IF ~e.opened \/ e.reopen_same THEN {} ELSE {"second_recovery_differs"})
          \cup (IF ~e.opened \/ ~e.reopen_same \/ e.dup THEN {} ELSE {"retry_not_duplicate"})
          \cup (IF ~e.opened \/ ~e.reopen_same \/ ~e.dup \/ e.cont THEN {} ELSE {"continued_run_differs"})
-     IN IF reasons = {} THEN UNCHANGED bad
-        ELSE PrintT(<<"BAD", l, reasons>>) /\ bad' = bad + 1
+     IN /\ memo' = IF key \in DOMAIN memo THEN memo ELSE Upd(memo, key, ev)
+        /\ IF reasons = {} THEN UNCHANGED bad
+           ELSE PrintT(<<"BAD", l, reasons>>) /\ bad' = bad + 1
   /\ UNCHANGED <<seg, txs, ackLen, pubLen, fps, ledK, k0, len0, subs0, dec0, kcur>> /\ WalUnchanged
 
 \* ---- store fault (StoreFault of Wal.tla) ----------------------------------------------
@@ -180,14 +195,14 @@ TFault ==
          \cup (IF e.res # "err" \/ e.retry \in {"acked", "ticked", "staged", "dup"} THEN {} ELSE {"retry_after_fault_failed"})
          \cup (IF e.final_same THEN {} ELSE {"run_after_fault_differs"})
      IN IF reasons = {} THEN UNCHANGED bad ELSE PrintT(<<"BAD", l, reasons>>) /\ bad' = bad + 1
-  /\ UNCHANGED <<seg, txs, ackLen, pubLen, fps, ledK, k0, len0, subs0, dec0, kcur>> /\ WalUnchanged
+  /\ UNCHANGED <<seg, txs, ackLen, pubLen, fps, ledK, k0, len0, subs0, dec0, kcur, memo>> /\ WalUnchanged
 
 TManifestFault ==
   /\ IsEvent("manifest_fault")
   /\ LET e == Rec[l] IN
        IF e.res = "err" /\ ~e.manifest_written /\ e.history_same THEN UNCHANGED bad
        ELSE PrintT(<<"BAD", l, {"manifest_fault"}>>) /\ bad' = bad + 1
-  /\ UNCHANGED <<seg, txs, ackLen, pubLen, fps, ledK, k0, len0, subs0, dec0, kcur>> /\ WalUnchanged
+  /\ UNCHANGED <<seg, txs, ackLen, pubLen, fps, ledK, k0, len0, subs0, dec0, kcur, memo>> /\ WalUnchanged
 
 TNext == TReset \/ TRec \/ TOpened \/ TLedger \/ TCall \/ TProbe \/ TFault \/ TManifestFault
 TSpec == TInit /\ [][TNext]_allvars
